@@ -12,7 +12,9 @@ predicts the STATE after every call -- text slot of every caller dict, which sni
 table for, size of get_block_name's default lookup, raised/returned -- and is compared with the state observed
 in the implementation.  Second tie: the same state machine over the REAL markup pipeline model (command 2 of
 HistoryRun: History.step with parse / resolve / stringify = model/Markup*.v) predicts the actual output string
-and the text slots of every modelled markup call made inside a history.
+and the text slots of every modelled markup call made inside a history.  Third tie: History.step over the REAL
+stylesheet pipeline model (run/HistoryStyle.v, evaluated inside Coq because the scorer uses PrimFloat) predicts
+the output string of every stylesheet call of a history and which table every cache dict holds.
 
 C08_SKIP_CORPUS=1 leaves the committed corpus out (sanity runs that must find a defect from generated input)."""
 import glob
@@ -260,6 +262,123 @@ def compare_markup(h, r, enc, out):
     return diffs
 
 
+# ------------------------------------------------------------------ stylesheet half over the real pipeline model (ST)
+STYLE_HEADER = ('From Coq Require Import PrimFloat.\n'
+                'From Emmet Require Import lib.Base lib.StyleLib model.CssResolve run.StyleShow run.HistoryStyle.\n'
+                'Local Open Scope N_scope.\n')
+CSS_ERR = {'scanner': 'ScannerException', 'token': 'TokenScannerException'}
+
+
+def encode_css_history(h):
+    """the stylesheet calls of `h` as a Coq term for run/HistoryStyle.v (History.step over the ST pipeline model,
+    evaluated inside Coq because the scorer uses PrimFloat); None when a stylesheet call is outside ST's
+    configuration language (then the model could not follow the cache dicts)."""
+    import style_util as su
+    seq = list(h['calls']) + [h['probe']]
+    calls, which = [], []
+    for k, c in enumerate(seq):
+        if c['via'] == 'default':
+            continue
+        di = h['objs'][c['d']] if c['via'] == 'obj' else c['d']
+        spec = h['dicts'][di]
+        if spec.get('type') != 'stylesheet':
+            continue
+        if '@global' in spec:
+            return None
+        opts = dict(spec.get('options') or {})
+        tab = False
+        if 'output.field' in opts:
+            if opts.pop('output.field') != '@tabstop':
+                return None
+            tab = True
+        if any(o not in su.OPTION_OV for o in opts):
+            return None
+        ctxd = spec.get('context')
+        cfg = su.Cfg(spec.get('syntax') or 'css', opts, spec.get('snippets') or {}, ctxd['name'] if ctxd else None, tab)
+        cache = spec.get('cache') if c['via'] != 'nocache' else None
+        calls.append('(%s, %s, %s)' % ('None' if cache is None else '(Some %d%%nat)' % cache, cfg.coq(), su.cstr(c['abbr'])))
+        which.append((k, di))
+    if len(calls) < 2:
+        return None
+    return '(%d%%nat, [%s])' % (h.get('ncaches', 0), ';\n  '.join(calls)), which
+
+
+def css_tie(ctx, hs, rs, limit):
+    """returns ({history index: [differences]}, stats)"""
+    import subprocess
+    import style_util as su
+    stats = {'histories': 0, 'calls_compared': 0, 'disagreements': 0}
+    items = []
+    prio = {'corpus': 0, 'random': 1, 'pair': 2}
+    order = sorted(range(len(hs)), key=lambda k: (prio.get(hs[k][0].split(':')[0], 3), k))
+    for k in order:
+        (label, h), r = hs[k], rs[k]
+        if len(items) >= limit:
+            break
+        if 'worker_error' in r['history']:
+            continue
+        e = encode_css_history(h)
+        if e is not None:
+            items.append((k, e))
+    if not items:
+        return {}, stats
+    d = os.path.join(common.BUILD, 'c08style-%d' % os.getpid())
+    os.makedirs(d, exist_ok=True)
+    for fn in os.listdir(d):
+        os.remove(os.path.join(d, fn))
+    nsh = max(1, min(common.NPROC, len(items) // 4 or 1))
+    shards = [items[i::nsh] for i in range(nsh)]
+    for si, sh in enumerate(shards):
+        with open(os.path.join(d, 'hist_%d.v' % si), 'w') as f:
+            f.write(STYLE_HEADER + 'Eval vm_compute in (run_css_histories [\n' + ';\n'.join(e[0] for _, e in sh) + ']).\n')
+    cmd = ('ls hist_*.v | xargs -P%d -I{} sh -c \'timeout 1500 coqc -Q "%s" Emmet {} > {}.out 2>&1 || echo FAIL {}\''
+           % (common.NPROC, common.COQ))
+    subprocess.run(cmd, shell=True, cwd=d, stdout=subprocess.PIPE, stderr=subprocess.STDOUT, text=True)
+    diffs = {}
+    for si, sh in enumerate(shards):
+        path = os.path.join(d, 'hist_%d.v.out' % si)
+        try:
+            with open(path) as f:
+                lists = su.parse_coq_lists(f.read())
+            if len(lists) != 2 * sum(len(e[1]) for _, e in sh):
+                raise ValueError('expected %d lists, got %d' % (2 * sum(len(e[1]) for _, e in sh), len(lists)))
+        except Exception as e:
+            ctx.broken.append({'kind': 'model-evaluation', 'file': 'hist_%d.v' % si,
+                               'log_tail': (open(path).read()[-800:] if os.path.exists(path) else '') + repr(e)})
+            continue
+        it = iter(lists)
+        for k, (term, which) in sh:
+            h, r = hs[k][1], rs[k]
+            seq = list(h['calls']) + [h['probe']]
+            stats['histories'] += 1
+            dd = []
+            for (ck, di) in which:
+                res, cs = su.decode_show(next(it)), next(it)
+                rec = r['history']['calls'][ck]
+                stats['calls_compared'] += 1
+                if res[0] == 'ok':
+                    mo = ['ok', res[1]]
+                elif res[0] in CSS_ERR:
+                    mo = ['err', CSS_ERR[res[0]]]
+                elif res[0] == 'internal':
+                    mo = ['err', res[1]]
+                else:
+                    mo = None
+                if mo is not None and rec['out'] != mo and rec['out'] != ['err', 'RecursionError']:
+                    dd.append('call %d expand(%r): implementation %r, model %r' % (ck, seq[ck]['abbr'], rec['out'], mo))
+                for j, src in enumerate(cs):
+                    fp = rec['caches'][j][1]
+                    want = None if src == 0 else r['tables'][which[src - 1][1]]
+                    if fp != want:
+                        dd.append('call %d: cache %d %s, model: %s' % (
+                            ck, j, 'is empty' if fp is None else 'holds a table', 'empty' if src == 0 else
+                            'the table of the snippets of call %d' % which[src - 1][0]))
+            if dd:
+                stats['disagreements'] += 1
+                diffs[k] = dd
+    return diffs, stats
+
+
 # ------------------------------------------------------------------ evidence
 def cover_history(ctx, h, r):
     seq = list(h['calls']) + [h['probe']]
@@ -317,7 +436,7 @@ def gen(ctx):
 
 
 def run(ctx):
-    ok = ctx.build(['props/C08.vo', 'run/HistoryRun.vo'])
+    ok = ctx.build(['props/C08.vo', 'run/HistoryRun.vo', 'run/HistoryStyle.vo', 'proofs/HistoryWorlds.vo'])
     if ok:
         ctx.obligations('props/C08.v')
     model = ctx.model('history') if ok else None
@@ -383,6 +502,12 @@ def run(ctx):
             if d2:
                 mcorr['disagreements'] += 1
                 disagree.setdefault(k, []).extend(d2)
+    # stylesheet half over the real pipeline model, evaluated inside Coq
+    scorr = {'histories': 0, 'calls_compared': 0, 'disagreements': 0}
+    if ok:
+        d3, scorr = css_tie(ctx, hs, rs, 150 if ctx.tier == 'quick' else 1500)
+        for k, dd in d3.items():
+            disagree.setdefault(k, []).extend(dd)
     n_fail = 0
     unexplained = []
     for k, ((label, h), r) in enumerate(zip(hs, rs)):
@@ -438,7 +563,11 @@ def run(ctx):
         else:
             ctx.broken.append({'kind': 'model-correspondence', 'file': 'history %d (%s): %s' % (k, label, '; '.join(disagree[k])[:600]),
                                'history': h})
-    ctx.cov['correspondence'] = {'history-state-machine': corr, 'history-over-markup-pipeline-model': mcorr}
+    ctx.cov['correspondence'] = {'history-state-machine': corr, 'history-over-markup-pipeline-model': mcorr,
+                                 'history-over-stylesheet-pipeline-model': scorr}
+    ctx.cov['additional_theorems'] = ['proofs/HistoryWorlds.v css_history_is_expand_css: through any cache dict, after any history, the '
+                                      'history model over the stylesheet pipeline model returns what the cache-less expand_css returns '
+                                      '(compiled with the build; depends on the kernel PrimFloat primitives only)']
     # the fork server's "fresh state" is re-checked against really fresh interpreters
     n_once = 24 if ctx.tier == 'quick' else 200
     picks = []
